@@ -4,7 +4,7 @@ import json
 META = {
     "level": "exploration",
     "technique": "TLA+ provenance model (every envelope / peer-record field original or foreign) enumerated by TLC; the driver builds each vector with real keys of every type through hand-encoded protobuf and asks the real SignedEnvelope / PeerRecord API; all single-bit (thorough: single-byte) changes of messages, signatures and encoded envelopes; TLC evaluates the relation on every record",
-    "text": "TLC enumerates the 32 provenance vectors of a signed envelope (carried key, signed domain, signed type, carried type, signed payload: original or foreign) and the 32 vectors of a peer record (API legacy/interop x signed domain x type x carried key x record peer id) for each of the 4 key types; the driver signs with real keys over an independently implemented RFC-0002 buffer, encodes the protobuf by hand and calls from_protobuf_encoding + payload_and_signing_key / PeerRecord::from_signed_envelope(_interop): TLC checks accepted <=> every field original (and the returned payload/key/record content equal the signed ones). For every key type and three message lengths: the signature verifies, not under another key or key type, and no single-bit change of message or signature, truncation or extension verifies. For an envelope and a peer-record envelope of every key type every single-byte mutation (6 masks, thorough all 255) and every truncation is rejected or decodes to an identical record.",
+    "text": "TLC enumerates the 32 provenance vectors of a signed envelope (carried key, signed domain, signed type, carried type, signed payload: original or foreign) and the 32 vectors of a peer record (API legacy/interop x signed domain x type x carried key x record peer id) for each of the 4 key types; every foreign field is built in four shapes (unrelated value, extension of the original, prefix of it, empty), and peer records additionally with domain / payload-type constants extended or cut by one byte; the driver signs with real keys over an independently implemented RFC-0002 buffer, encodes the protobuf by hand and calls from_protobuf_encoding + payload_and_signing_key / PeerRecord::from_signed_envelope(_interop): TLC checks accepted <=> every field original (and the returned payload/key/record content equal the signed ones). For every key type and three message lengths: the signature verifies, not under another key or key type, and no single-bit change of message or signature, truncation or extension verifies. For an envelope and a peer-record envelope of every key type every single-byte mutation (6 masks, thorough all 255) and every truncation is rejected or decodes to an identical record.",
     "note": "Exploration level. ECDSA/secp256k1 signature malleability (r, n-s) is not a single-byte change and is outside the statement's quantifier.",
     "design_ref": "6/C21",
 }
